@@ -102,6 +102,60 @@ func runC13(c *Ctx) {
 			pair[a.ID] = b.ID
 		}
 	}
+	// the very first data record addresses a local type that was never defined
+	for _, pr := range [][2]int{{5, 3}, {0, 1}, {15, 0}, {2, 10}} {
+		for arch := byte(0); arch < 2; arch++ {
+			s := newStream(12, false)
+			s.Def(pr[0], arch, 0, []FieldDef{{0, 1, 0}, {1, 2, 0x84}}, nil)
+			s.Raw(append([]byte{byte(pr[1]), 4}, wire(u16le(1), arch)...)...)
+			s.Def(1, arch, 20, []FieldDef{{3, 1, 2}}, nil)
+			s.Data(1, []byte{70})
+			id++
+			u := p.runCall(id, []string{"decode", "header_fileid"}[int(arch)], s.Bytes(), plain, CallOpts{}, true)
+			u.Note = fmt.Sprintf("file_id definition on local type %d, first data record on %d", pr[0], pr[1])
+			calls = append(calls, u)
+			undefined++
+		}
+	}
+	// definitions do not survive into the next file of a chain
+	for k := 0; k < c.pick(6, 40); k++ {
+		arch := byte(k % 2)
+		a := newStream(12, false)
+		a.FileId(0, arch, 4)
+		l := 1 + rng.Intn(15)
+		a.Def(l, arch, 20, []FieldDef{{253, 4, 0x86}, {3, 1, 2}}, nil)
+		a.Data(l, append(wire(u32le(0x39000000+uint32(k)), arch), 90))
+		b := newStream(12, false)
+		b.FileId(0, arch, 4)
+		b.Def((l+1)%16, arch, 20, []FieldDef{{3, 1, 2}}, nil)
+		b.Data((l+1)%16, []byte{91})
+		if l <= 3 && k%3 == 0 {
+			b.Compressed(l, 5, append(wire(u32le(0x39000100), arch), 92)) // only file a defined l
+		} else {
+			b.Data(l, append(wire(u32le(0x39000100), arch), 92))
+		}
+		id++
+		u := p.runCall(id, "chained", append(a.Bytes(), b.Bytes()...), plain, CallOpts{}, true)
+		u.Note = fmt.Sprintf("chain: the second file uses local type %d, which only the first file defines", l)
+		calls = append(calls, u)
+		undefined++
+	}
+	// every record sequence up to the depth over the model's alphabet (TLC-generated)
+	scripts := recordsMC(c, p, sch, c.pick(3, 4))
+	for _, s := range scripts {
+		id++
+		a := p.runCall(id, "decode", s.Bytes(), plain, CallOpts{}, true)
+		a.Note = "slot reuse"
+		calls = append(calls, a)
+		if ctl := s.Control(); ctl != nil {
+			id++
+			b := p.runCall(id, "decode", ctl.Bytes(), plain, CallOpts{}, true)
+			b.Note = "control"
+			calls = append(calls, b)
+			pair[a.ID] = b.ID
+		}
+	}
+	c.Cov["tlc_generated_record_sequences_replayed"] = len(scripts)
 	mm := c.validateCalls(p, sch, calls, 14)
 	// index control mismatches
 	type key struct {
